@@ -60,6 +60,8 @@ pub fn run(cx: &mut Ctx) {
     prefix_agreement(cx, &src);
     grouped_zero_padding(cx, &src);
     crate::rules::float_rules::float_renderer(cx, "C18.G1");
+    crate::rules::float_rules::float_sign_rule(cx, "C18.S1", "format/src/format.rs", "FormatSpec", "format_float");
+    unconsumed_text(cx, &src);
 }
 
 /// A3: grouped digits are extended to the width only under zero padding.
@@ -509,5 +511,54 @@ fn allowed_handled(cx: &mut Ctx, src: &sm::Src) {
         cx.ok(rule, "no explicit type: interval 3");
     } else {
         cx.fail(rule, &format!("{}/none", rule), &src.loc(gs), "get_separator_interval has no `None => 3` arm");
+    }
+}
+
+
+/// P2: a sub-parser that recognises nothing consumes nothing.
+fn unconsumed_text(cx: &mut Ctx, src: &sm::Src) {
+    let rule = "C18.P2";
+    cx.rule(rule, "the sub-parsers of the format spec (`fn parse*(text) -> (value.., rest)`) hand back their input unchanged when they recognise nothing: every result tuple whose value part is `None` / `false` ends in the parameter `text` itself — so a `.` without digits, a stray character etc. is still there for FormatSpec::parse to reject (`Format specifier missing precision`), instead of being swallowed");
+    cx.floor(rule, 8);
+    let re = regex::Regex::new(r"\((?:None,)+(\w+)\)|\(false,(\w+)\)").unwrap();
+    let mut fns: Vec<(String, String, String)> = vec![]; // (name, param, body text)
+    for f in src.all_free_fns() {
+        let name = f.sig.ident.to_string();
+        if name.starts_with("parse_") {
+            if let Some(syn::FnArg::Typed(pt)) = f.sig.inputs.first() {
+                fns.push((name, sm::tsc(&pt.pat), sm::tsc(&f.block)));
+            }
+        }
+    }
+    for i in src.impls() {
+        for it in &i.items {
+            if let syn::ImplItem::Fn(f) = it {
+                if f.sig.ident == "parse" && sm::tsc(&f.sig.output).contains("(Option<") {
+                    if let Some(syn::FnArg::Typed(pt)) = f.sig.inputs.first() {
+                        fns.push((format!("{}::parse", sm::self_ty_name(i)), sm::tsc(&pt.pat), sm::tsc(&f.block)));
+                    }
+                }
+            }
+        }
+    }
+    for (name, param, body) in fns {
+        let mut n = 0;
+        let mut bad = vec![];
+        for c in re.captures_iter(&body) {
+            let whole = c.get(0).unwrap().as_str().to_string();
+            // `(None, maybe_align, remaining)`-style tuples with a recognised middle part are not "nothing recognised"
+            let rest = c.get(1).or(c.get(2)).unwrap().as_str();
+            n += 1;
+            if rest != param {
+                bad.push(whole);
+            }
+        }
+        if bad.is_empty() {
+            if n > 0 {
+                cx.ok(rule, &format!("{}: {} empty result(s) return `{}` unchanged", name, n, param));
+            }
+        } else {
+            cx.fail(rule, &format!("{}/{}", rule, name), &src.rel, &format!("{} returns {:?} for an input it does not recognise: the rest must be the parameter `{}` itself, otherwise characters are swallowed", name, bad, param));
+        }
     }
 }
